@@ -5166,6 +5166,51 @@ func (c *Ctx) unclosedCursor() string {
 					}
 				}
 			}
+			// ownership handed on: the cursor is kept in an object the function returns, and every
+			// library caller defers a method of that object which closes it
+			if !closed {
+				kept := false
+				for _, cv := range resultValues(call, 0) {
+					for _, r := range realReferrers(cv) {
+						if st, ok := r.(*ssa.Store); ok && st.Val == cv {
+							if _, f, _ := fieldOfAddr(st.Addr); f != "" {
+								kept = true
+							}
+						}
+					}
+				}
+				if kept {
+					sites := c.staticCallers(fn)
+					all := len(sites) > 0
+					for _, s := range sites {
+						sc, ok := s.(*ssa.Call)
+						if !ok {
+							all = false
+							continue
+						}
+						deferred := false
+						for _, rv := range resultValues(sc, 0) {
+							for _, r := range realReferrers(rv) {
+								d, ok := r.(*ssa.Defer)
+								if !ok {
+									continue
+								}
+								if g := staticCallee(d); g != nil && c.IsLib(c.declared(g)) {
+									allCalls(c.declared(g), func(gi ssa.CallInstruction) {
+										if c.isInvokeOf(gi, "store", "Cursor", "Close") {
+											deferred = true
+										}
+									})
+								}
+							}
+						}
+						if !deferred {
+							all = false
+						}
+					}
+					closed = all
+				}
+			}
 			if !closed {
 				bad = c.fname(fn) + " obtains a cursor at " + relPath(c, call.Pos()) + " without deferring its Close"
 			}
@@ -5919,6 +5964,10 @@ func ruleIMP2(c *Ctx) []Ob {
 		// of documents, and success must lie behind a nil test of what was decoded
 		allCalls(fn, func(ci ssa.CallInstruction) {
 			if calleeFullName(ci) != "(*encoding/json.Decoder).Decode" || len(ci.Common().Args) < 2 {
+				return
+			}
+			// an element decoded inside a loop over Decoder.More is not the top-level value
+			if c.inLoop(ci.Block()) {
 				return
 			}
 			var target *ssa.Alloc
